@@ -277,7 +277,9 @@ def run_query(op, kind, rhs, dtype):
 
 
 def expected(D, kind, rhs, dtype):
-    """oracle: plain torch on the dense matrix D"""
+    """oracle: plain torch on the dense matrix D (always evaluated in float64: exact for the integer data)"""
+    dtype = torch.float64
+    D = D.to(torch.float64)
     if kind.startswith("matmul_"):
         return torch.matmul(D, ob.tt(rhs, dtype))
     if kind in ("rmatmul", "rmatvec"):
@@ -293,10 +295,17 @@ def expected(D, kind, rhs, dtype):
     raise ValueError(kind)
 
 
-def tol_for(e, dtype):
-    if tree_classes(e) & FFT_CLASSES:
-        return 1e-6 if dtype == torch.float64 else 2e-2
-    return 0.0
+def tol_for(e, dtype, scale):
+    """absolute tolerance for one observation whose dense value has largest entry `scale`.
+    Entries are small integers: results are EXACT in float64 (|values| < 2^52) and in float32 as long as the values
+    (and, with margin, the intermediate sums) stay below 2^24; deep Kronecker / product nests exceed that in float32, and
+    FFT-based Toeplitz products are never exact: there a relative tolerance applies."""
+    fft = bool(tree_classes(e) & FFT_CLASSES)
+    if dtype == torch.float64:
+        return (1e-9 * max(1.0, scale)) if (fft or scale > 2.0 ** 50) else 0.0
+    if fft:
+        return 2e-4 * max(1.0, scale)
+    return 0.0 if scale <= 4096 else 1e-5 * scale
 
 
 def predicate(e, kind, rhs, dtype, obs, D):
@@ -309,10 +318,10 @@ def predicate(e, kind, rhs, dtype, obs, D):
         return None if tuple(got) == tuple(exp) else ("shape", "shape %s, dense %s" % (got, exp))
     if tuple(got.shape) != tuple(exp.shape):
         return ("shape", "result shape %s, dense result shape %s" % (tuple(got.shape), tuple(exp.shape)))
-    tol = tol_for(e, dtype)
     g64, e64 = got.to(torch.float64), exp.to(torch.float64)
     if not bool(torch.all(torch.isfinite(g64))):
         return ("value", "non-finite entries")
+    tol = tol_for(e, dtype, float(e64.abs().max()) if e64.numel() else 0.0)
     err = float((g64 - e64).abs().max()) if g64.numel() else 0.0
     if err > tol:
         return ("value", "max abs difference %g" % err)
@@ -462,8 +471,8 @@ def sanitize(rng, e, cell):
 
 
 def main_dtype(e):
-    """Permutation operators are float32 by construction (no dtype argument): expressions containing one are
-    compared in Coq through their float32 observations (exact: small integers)."""
+    """Permutation operators are float32 by construction (no dtype argument): for expressions containing one, a query
+    that fails in float64 only because of that (known findings) is compared in Coq through its float32 observation."""
     return torch.float32 if tree_classes(e) & {"Permutation", "TransposePermutation"} else torch.float64
 
 
@@ -623,7 +632,7 @@ def observe_all(ctx, rng, cell_list):
             f64 = predicate(e, kind, rhs, torch.float64, o64, D64)
             o32 = run_query(op32, kind, rhs, torch.float32)
             f32 = predicate(e, kind, rhs, torch.float32, o32, D32)
-            main32 = main_dtype(e) == torch.float32
+            main32 = main_dtype(e) == torch.float32 and f64 is not None and f32 is None
             rows.append({"kind": kind, "rhs": rhs, "o64": o32 if main32 else o64, "f64": f64, "f32": f32,
                          "fmain": f32 if main32 else f64})
         cases.append({"cell": cell, "e": e, "lit": lit, "rows": rows})
